@@ -11,7 +11,7 @@ b2 = np.array([0.5, -1.0])
 b3 = np.array([0.5, -1.0, 0.0])
 
 
-EXP_ATOMS = ['exp', 'log', 'pexp', 'plog', 'softplus', 'entropy', 'expsum', 'sumexp', 'sumlog']
+EXP_ATOMS = ['exp', 'log', 'pexp', 'plog', 'softplus', 'entropy', 'expsum', 'sumexp', 'sumlog', 'sumpexp', 'sumplog', 'sumexpb', 'sumlogb']
 EXP_FAMILY = EXP_ATOMS + ['kldiv', 'expcone']      # members decided under the cone-term abstraction
 
 
@@ -32,6 +32,15 @@ def exp_desc(a, atom, form):
         h, curv = a.sumexp(2.0 * x - b2), 1
     elif atom == 'sumlog':
         h, curv = a.sumlog(x + 2.5), -1
+    elif atom == 'sumpexp':
+        h, curv = a.sumpexp(x - 0.5, 2.0), 1            # pexp(., 2).sum(): sum of perspectives
+    elif atom == 'sumplog':
+        h, curv = a.sumplog(x + 2.5, 2.0), -1
+    elif atom == 'sumexpb':
+        # (exp(x) + Y).sum() with x of shape (2,) broadcast against a (2, 2) constant: every entry of the sum counts
+        h, curv = a.sumexp_bcast(x, np.array([[0.5, -1.0], [0.25, 1.5]])), 1
+    elif atom == 'sumlogb':
+        h, curv = a.sumlog_bcast(x + 2.5, np.array([[0.5, -1.0], [0.25, 1.5]])), -1
     elif atom == 'log':
         h, curv = a.log(x + 2.5), -1
     elif atom == 'pexp':
@@ -50,7 +59,7 @@ def exp_desc(a, atom, form):
             a.st(a.le(2.0 * h + lin, u))      # 1/2 is exact in binary (1/2.5 is not: the abstraction needs equal terms)
             a.min(u)
         elif form == 'obj':
-            if atom == 'sumexp':
+            if atom in ('sumexp', 'sumpexp', 'sumexpb'):
                 a.min(h - lin)
             else:
                 a.st(a.le(h, u))
@@ -69,7 +78,7 @@ def exp_desc(a, atom, form):
             a.st(a.ge(2.0 * h + lin, u))
             a.max(u)
         elif form == 'obj':
-            if atom in ('entropy', 'sumlog'):
+            if atom in ('entropy', 'sumlog', 'sumplog', 'sumlogb'):
                 a.max(h + lin)
             else:
                 a.st(a.ge(h, u))
@@ -122,6 +131,9 @@ def vec_atoms():
         'quadpsd': (lambda a, e: a.quad(e, [[2.0, 0.5], [0.5, 1.0]]), 1, 'vec2'),
         'quadnsd': (lambda a, e: a.quad(e, [[-2.0, 0.5], [0.5, -1.0]]), -1, 'vec2'),
         'quaddiag': (lambda a, e: a.quad(e, [[4.0, 0.0], [0.0, 1.0]]), 1, 'vec2'),
+        # x'Qx with a NON-symmetric Q (the quadratic form of its symmetric part)
+        'quadnonsym': (lambda a, e: a.quad(e, [[1.0, 2.0], [0.0, 1.0]]), 1, 'vec2'),
+        'quadnonsym2': (lambda a, e: a.quad(e, [[2.0, 2.0], [0.0, 2.0]]), 1, 'vec2'),
     }
 
 
@@ -150,6 +162,10 @@ def core_specs():
     for atom in EXP_ATOMS:
         for form in ['le', 'le_scaled', 'obj', 'le_affine_rhs', 'le_from_right']:
             S.append(dict(name='%s-%s' % (atom, form), atom=atom, form=form))
+            if atom in ('sumpexp', 'sumplog'):
+                # sums of perspective atoms have no compiled form: RSOME may refuse them (raise); if it accepts them
+                # the compiled program must mean the sum
+                S[-1]['may_raise'] = True
     for atom in ['abs', 'square', 'power3', 'exp', 'log']:
         for form in ['bcast_var', 'bcast_const', 'bcast_scaled']:
             S.append(dict(name='%s-%s' % (atom, form), atom='bcast', base=atom, form=form))
@@ -160,10 +176,15 @@ def core_specs():
         S.append(dict(name='expcone-' + form, atom='expcone', form=form))
     for form in ['tight_first', 'loose_first', 'interleaved']:
         S.append(dict(name='overlap-bounds-' + form, atom='bounds', form=form))
+    # variables (integer / binary / continuous) declared AFTER the model was formulated or solved once: the auxiliary
+    # columns of the first formulation lie between the early and the late variables
+    for form in ['int_after_formulation', 'int_after_solve', 'bin_after_solve', 'cont_after_solve']:
+        S.append(dict(name='late-variable-' + form, atom='latevar', form=form))
     # the same descriptions through the dro front end (DecVar / DecAffine / DecConvex, dro.Model.do_math).  Members the
     # dro front end rejects loudly (summed exp/log, KL divergence, rsocone: TypeError / AttributeError) are not included.
     for sp in list(S):
-        if sp['atom'] in ('sumexp', 'sumlog', 'kldiv', 'rsocone') or sp['form'].startswith('vector_y'):
+        if sp['atom'] in ('sumexp', 'sumlog', 'kldiv', 'rsocone', 'sumpexp', 'sumplog', 'sumexpb', 'sumlogb', 'latevar') \
+                or sp['form'].startswith('vector_y'):
             continue          # (expcone with an array as left argument: ValueError inside dro.ro_to_roc, loud)
         d = dict(sp)
         d['name'] = 'dro:' + sp['name']
@@ -508,6 +529,19 @@ def desc_from_spec(spec):
                 f()
             a.max(a.sum(np.array([1.0, 1.0, 1.0]) * x) - a.sum(np.array([1.0, 2.0]) * y)) if form != 'loose_first' else \
                 a.min(a.sum(np.array([1.0, 1.0, 1.0]) * x) - a.sum(np.array([1.0, 2.0]) * y))
+        elif atom == 'latevar':
+            x = a.dvar(3)
+            a.st(a.ge(x, -1.0))
+            a.st(a.le(x, 2.0))
+            a.st(a.le(a.norm(x - np.array([0.4, 1.6, 0.5]), 1), 2.5))       # auxiliary columns
+            a.max(a.sum(np.array([1.0, 1.0, 0.5]) * x))
+            a.formulate(solve=form.endswith('solve'))
+            vt = {'int': 'I', 'bin': 'B', 'cont': 'C'}[form.split('_')[0]]
+            k = a.dvar(2, vt)
+            a.st(a.ge(k, -1.0))
+            a.st(a.le(k, 1.5))
+            a.st(a.le(x[0:2], 0.75 * k))
+            a.st(a.le(a.norm(x[1:3], 2), 1.75))                             # more auxiliary columns after the late ones
         elif atom == 'multi':
             x = a.dvar(3)
             u = a.dvar(())
